@@ -1,4 +1,5 @@
 import GwbVerif.Properties.C20
+import GwbVerif.Properties.C20Slab
 open Gwb
 #print axioms C20_halfspace_envelope
 #print axioms C20_halfspace_monotone_depth
@@ -12,6 +13,11 @@ open Gwb
 #print axioms C20_plate_boundaries
 #print axioms C20_plate_model_boundaries
 #print axioms C20_plate_model_constant_age_boundaries
+#print axioms C20_mass_conserving_outside_identity
+#print axioms C20_slab_plate_model_outside_identity
+#print axioms C20_mass_conserving_bottom_envelope
+#print axioms C20_mass_conserving_bottom_monotone
+#print axioms C20_mass_conserving_top_no_heating
 #check @C20_halfspace_envelope
 #check @C20_halfspace_monotone_depth
 #check @C20_halfspace_antitone_age
@@ -24,3 +30,8 @@ open Gwb
 #check @C20_plate_boundaries
 #check @C20_plate_model_boundaries
 #check @C20_plate_model_constant_age_boundaries
+#check @C20_mass_conserving_outside_identity
+#check @C20_slab_plate_model_outside_identity
+#check @C20_mass_conserving_bottom_envelope
+#check @C20_mass_conserving_bottom_monotone
+#check @C20_mass_conserving_top_no_heating
